@@ -97,9 +97,20 @@ func isPointerTo(t types.Type, pred func(types.Type) bool) bool {
 	return ok && pred(p.Elem())
 }
 
-func (fv *FV) kvBumpWrites(e *Env, ok Term) {
+// treeWritesVar is the ghost map (declared in the cometbft/api contracts) that
+// attributes successful state-tree writes to the tree object they went through.
+const treeWritesVar = "consensus/cometbft/api.GTreeW"
+
+func treeWritesComp() string { return "G$" + sanitize(treeWritesVar) }
+
+func (fv *FV) kvBumpWrites(e *Env, ok Term, recv *Value) {
 	w := fv.loadComp(e, kvWrites, sInt, tNull)
 	fv.storeComp(e, kvWrites, sInt, ite(ok, add(w, intLit(1)), w), tNull)
+	if recv != nil && fv.eng.ghostVarNamed(treeWritesVar) {
+		srt := arrSort(sRef, sInt)
+		cur := fv.loadComp(e, treeWritesComp(), srt, tNull)
+		fv.storeComp(e, treeWritesComp(), srt, ite(ok, store(cur, recv.T, add(sel(cur, recv.T), intLit(1))), cur), tNull)
+	}
 }
 
 func init() {
@@ -144,7 +155,7 @@ func init() {
 		dom, val := fv.kvDomArr(e), fv.kvValArr(e)
 		fv.storeComp(e, kvDom, arrSort(sInt, sBool), ite(ok, store(dom, kid, tTrue), fv.s.freshConst("kvdom?", dom.Sort)), tNull)
 		fv.storeComp(e, kvVal, arrSort(sInt, sInt), ite(ok, store(val, kid, vid), fv.s.freshConst("kvval?", val.Sort)), tNull)
-		fv.kvBumpWrites(e, ok)
+		fv.kvBumpWrites(e, ok, recv)
 		return err, true
 	}
 	libModelDocs[tree+"Remove"] = "T-KV: on success the key is absent and the write counter grows"
@@ -158,7 +169,7 @@ func init() {
 		fv.assume(e, implies(not(ok), fv.errIs(err.T, fv.unavailSentinel())))
 		dom := fv.kvDomArr(e)
 		fv.storeComp(e, kvDom, arrSort(sInt, sBool), ite(ok, store(dom, kid, tFalse), fv.s.freshConst("kvdom?", dom.Sort)), tNull)
-		fv.kvBumpWrites(e, ok)
+		fv.kvBumpWrites(e, ok, recv)
 		return err, true
 	}
 	get := func(fv *FV, e *Env, x *ast.CallExpr, recv *Value, args []Value) (Value, bool) {
@@ -188,7 +199,7 @@ func init() {
 		okT := eq(r.Tuple[1].T, tNull)
 		dom := fv.kvDomArr(e)
 		fv.storeComp(e, kvDom, arrSort(sInt, sBool), ite(okT, store(dom, kid, tFalse), fv.s.freshConst("kvdom?", dom.Sort)), tNull)
-		fv.kvBumpWrites(e, okT)
+		fv.kvBumpWrites(e, okT, recv)
 		return r, true
 	}
 	libModelDocs[tree+"Get"] = "T-KV: returns the stored bytes (non-nil) iff the key is present"
